@@ -27,6 +27,8 @@ def check(ctx: Ctx) -> None:
     d = find_engine_decider(proj)
     r1_r2_selection(ctx, d)
     r2_key(ctx)
+    from .c07 import engine_memo_rule
+    engine_memo_rule(ctx, 'C09.R2')
     r4_mode(ctx)
 
 
